@@ -83,6 +83,13 @@ static void containers(std::vector<Item>& out, bool full) {
         for (auto& k : kids) out.push_back({mk_tag(t, k), "tag"});
     out.push_back({mk_tag(2, mk_tag(3, mk_tstr("t"))), "tag"});
     out.push_back({mk_tag(55799, mk_tag(1, mk_tag(0, mk_array({mk_uint(1)})))), "tag"});
+    // deep nests, depth 1..70 (a decoder that keeps a work stack grows it at 8, 16, 32, 64 entries): definite arrays, definite maps, arrays around an empty
+    // array, tag chains in front of an array, alternating definite / indefinite arrays, definite arrays with a trailing sibling at every level
+    for (int depth : {1, 2, 3, 4, 5, 6, 7, 8, 9, 10, 15, 16, 17, 31, 32, 33, 63, 64, 65, 70}) {
+        if (!full && depth > 17 && depth != 33 && depth != 65) continue;
+        Node a = mk_uint(7), m = mk_uint(7), e = mk_array(), t = mk_array({mk_uint(1)}), x = mk_uint(7), sib = mk_uint(7);
+        for (int d = 0; d < depth; d++) { a = mk_array({a}); m = mk_map({mk_uint(d), m}); e = mk_array({e}); t = mk_tag(d % 4 == 0 ? 1 : d % 4 == 1 ? 300 : d % 4 == 2 ? 70000 : 0x100000000ULL, t); Node y = mk_array({x}); y.indef = d & 1; x = y; sib = mk_array({sib, mk_uint(d)}); }
+        out.push_back({a, "deep-array"}); out.push_back({m, "deep-map"}); out.push_back({e, "deep-empty"}); out.push_back({mk_array({t, mk_uint(9)}), "deep-tags"}); out.push_back({x, "deep-mixed"}); out.push_back({sib, "deep-siblings"}); }
     // depth 3 nests
     { Node a = mk_array({mk_map({mk_uint(1), mk_array({mk_tag(4, mk_bstr("deep"))})})}); out.push_back({a, "array"}); Node b = a; b.indef = true; b.kids[0].indef = true; b.kids[0].kids[1].indef = true; out.push_back({b, "indef-array"}); }
 }
